@@ -66,7 +66,7 @@ def dup_rule_tree(rng):
 
 
 HIST = ["root_attach", "punctuation_root", "punctuation_verylow", "punctuation_symetrify", "heads+boyd_split+raising",
-        "punctuation_delete"]
+        "punctuation_delete", "add_topnode", "collapse_unary_chains"]
 
 
 def aged_tree(rng, n_min=1):
